@@ -12,6 +12,7 @@ from concurrent.futures import ThreadPoolExecutor
 
 ROOT = os.path.dirname(os.path.abspath(__file__))
 MIRI_DIR = os.path.join(ROOT, "miri")
+MIRI_DIR_OVERRIDE = None
 BASE_FLAGS = ["-Zmiri-deterministic-floats", "-Zmiri-ignore-leaks", "-Zmiri-disable-stacked-borrows", "-Zmiri-preemption-rate=0.05"]
 TIMEOUT_S = 900
 
@@ -26,6 +27,9 @@ def _env(miri_seed):
 
 def prepare():
     """Build the scenario program for Miri from /repo's current tree. Returns (ok, output)."""
+    global MIRI_DIR
+    if MIRI_DIR_OVERRIDE:
+        MIRI_DIR = MIRI_DIR_OVERRIDE
     r = subprocess.run(["cargo", "+nightly", "miri", "run", "--offline", "-q", "--", "0", "--list"], cwd=MIRI_DIR,
                        env=_env(0), stdout=subprocess.PIPE, stderr=subprocess.STDOUT, text=True)
     return r.returncode == 0, r.stdout
